@@ -48,6 +48,26 @@ DESC = {
  'C19_s1': 'integer detection via isdigit on load', 'C19_s2': 'update_yourself walks par_objs instead of the value dictionary',
  'C20_s1': '`==` instead of `is` in the switch setter', 'C20_s2': 'relative instead of absolute tolerance',
  'C20_s3': 'laue gets its own copy of the switch', 'C20_s4': 'determinant test via slogdet drops the sign',
+ 'C02_s3': 'tools.ubi_to_u takes B from a cache keyed by the cell rounded to 4 decimals',
+ 'C02_s4': 'laue.ub_to_u_b fast path for "already upper triangular" input skips the sign normalisation',
+ 'C04_s3': 'sg table cache keyed by class name only (R groups in two settings)',
+ 'C04_s4': 'name normalisation removes blanks only (tabs, newlines no longer)',
+ 'C06_s3': 'one digit of the -3m1 segment table in laue.genhkl_base',
+ 'C06_s4': 'final sort of genhkl_base on sin(theta)/lambda rounded to 1e-5',
+ 'C08_s3': 'StructureFactor computes stl from a cached reciprocal cell with mispaired cross terms',
+ 'C08_s4': 'StructureFactor sums the nuniq primitive operators only (centring copies dropped)',
+ 'C13_s3': 'epsilon_to_b builds its work array from the strain (integer strain truncates)',
+ 'C13_s4': 'laue: unstrained B memoised under the cell rounded to 3 decimals',
+ 'C14_s3': 'laue.form_b_mat one-entry memo compared with allclose',
+ 'C14_s4': 'laue.find_omega_quart builds the normal from Ry.Rx instead of Rx.Ry',
+ 'C15_s3': 'sg objects cached in multiplicity under (class name, cell_choice) -- "r" names collide',
+ 'C15_s4': 'lattice-vector test of multiplicity replaced by numpy.allclose defaults',
+ 'C17_s3': 'PDB temperature factor read from columns 62-66 (B >= 100 loses its first digit)',
+ 'C17_s4': 'CIFopen caches the parsed file under (path, size)',
+ 'C18_s3': 'tools.reduce_cell vectorised with cos(beta)/cos(gamma) swapped in the sorting metric',
+ 'C18_s4': 'laue.reduce_cell skips every candidate as short as the first vector when looking for the second',
+ 'C19_s3': 'saveparameters trims floats to 16 significant digits',
+ 'C19_s4': 'set_varylist stores the names in registration order',
 }
 rows = []
 for sid in sorted(os.listdir('/verif/seeded')):
